@@ -618,6 +618,8 @@ type Corruption struct {
 	// BodyErr: the connection breaks after the body bytes were delivered
 	// (reading the body ends in an error instead of EOF)
 	BodyErr bool
+	// Extra headers added to the request
+	Extra map[string]string
 	// Eff: the operation the damaged request amounts to if it is accepted
 	Eff *model.Op
 }
@@ -657,6 +659,9 @@ func (e *Env) transport(c *Caller) func(*http.Request) (*http.Response, error) {
 				} else {
 					hdr.Set("Sec-X-Tailscale-No-Browsers", *cor.NB)
 				}
+			}
+			for _, k := range sortedKeys(cor.Extra) {
+				hdr.Set(k, cor.Extra[k])
 			}
 			if cor.Body != nil {
 				body = cor.Body(body)
